@@ -9,8 +9,8 @@ COMMON_ASSUME = [
 
 PROPS = {
     "C07": {
-        "budget_s": {"quick": 90, "thorough": 1200},
-        "floor": {"quick": 5000, "thorough": 100000},
+        "budget_s": {"quick": 90, "thorough": 480},
+        "floor": {"quick": 5000, "thorough": 5000},
         "rule": "planted chain complexes C_0 -> ... -> C_L (L = 1..4, dims 0..8 quick / 0..14, zero-dimensional corners) built as d_i = P_{i+1}^-1 E_i P_i with random unimodular P_i and planted diagonals mixing units and "
                 "torsion from a per-ring palette (2,3,4,6,12,5,9, random and 64-200-bit elements, products) over BigInt, i64, i128, Ratio<i64|BigInt>, FF2, FF<3>, FF<5>, Gauss/Eisenstein over i64|BigInt, Poly<x,Q>, Poly<x,F3>; "
                 "route 1 GenericChainComplex::generate(..).homology(): rank = n - r_in - r_out, torsion ~ non-unit invariant factors of d_in (own SNF), every generator is a cycle, vectorize(gen k) = e_k, boundaries have zero coordinates mod torsion; "
@@ -21,8 +21,8 @@ PROPS = {
         "level_note": "Trusts the planted construction (d^2 = 0 is asserted by the generator) and the oracle SNF; sampled shapes.",
     },
     "C08": {
-        "budget_s": {"quick": 120, "thorough": 1800},
-        "floor": {"quick": 10000, "thorough": 200000},
+        "budget_s": {"quick": 120, "thorough": 720},
+        "floor": {"quick": 10000, "thorough": 10000},
         "rule": "planted chain complexes of 1-5 (quick) / 1-6 maps, dims 0..10 / 0..16, over i64, BigInt, Ratio<i64>, FF<2>, FF<3>, FF<5> and Z[H] = Poly<H,i64> (unit and non-unit planted entries, conjugated by random unimodular maps); "
                 "three routes: ChainReducer::reduce(c,true); a manual schedule of reduce_all(shallow/deep) / reduce_at / reduce_at_spec(i, Rows|Cols, One|AnyUnit|Weight(1,2,5)) with per-degree tracking flags and 0-2 tracked vectors per degree; "
                 "ChainComplexBase::reduced(); x rayon pools of 1,2,4,8,16 threads x hook schedule policies (sleep before the pivot write lock, herd, delayed column starts); "
@@ -38,8 +38,8 @@ PROPS = {
         "level_note": "Trusts the planted construction and the oracle SNF; schedules sampled.",
     },
     "C09": {
-        "budget_s": {"quick": 120, "thorough": 1500},
-        "floor": {"quick": 20000, "thorough": 300000},
+        "budget_s": {"quick": 120, "thorough": 480},
+        "floor": {"quick": 20000, "thorough": 20000},
         "rule": "per ring (BigInt, i64, i128, Gauss/Eisenstein over BigInt|i64|i128, Ratio<BigInt|i64>, FF<2,3,5>, FF2, Poly<x,Q|F3|F2>): seeded matrices m,n in 0..7 (quick) / 0..10 "
                 "(zero, sparse, dense, rank-deficient products, planted U*D*V with non-chained diagonals, diagonal inputs; entries from tiny to 2000-bit for arbitrary precision) x a random subset of the four transform flags; "
                 "checks: D diagonal, zeros last, normalised, d_i | d_{i+1}, diagonal ~ textbook SNF of A, ~ gcds of minors (<= 4x4), every product identity available for the returned transforms "
@@ -55,8 +55,8 @@ PROPS = {
         "level_note": "Trusts the oracle's dense arithmetic and textbook SNF (self-tested against minors); sampled shapes and entries, not exhaustive.",
     },
     "C10": {
-        "budget_s": {"quick": 120, "thorough": 1500},
-        "floor": {"quick": 10000, "thorough": 200000},
+        "budget_s": {"quick": 120, "thorough": 480},
+        "floor": {"quick": 10000, "thorough": 10000},
         "rule": "lll_hnf: same matrix families as C09 (any shape incl. 0 rows/cols, any rank, entries to 2000 bits) over BigInt, i64, i128, Gauss/Eisenstein over BigInt and i64 x transform flags; "
                 "lll: matrices with independent rows (checked by the oracle rank; 0 <= m <= n <= 8, incl. unimodularly skewed bases) over the same rings; checks: H = P A, P P^-1 = I, P^-1 H = A, P unimodular, "
                 "echelon shape (leading columns strictly increasing, zero rows last), pivots normalised, entries above a pivot of strictly smaller norm, #non-zero rows = oracle rank; B = P A, P unimodular, "
@@ -72,8 +72,8 @@ PROPS = {
         "level_note": "Trusts the oracle's exact Gram-Schmidt and dense arithmetic; the Lovasz constants (3/4, 2/3) are taken from the library's documented choice; sampled inputs.",
     },
     "C11": {
-        "budget_s": {"quick": 120, "thorough": 1800},
-        "floor": {"quick": 20000, "thorough": 400000},
+        "budget_s": {"quick": 120, "thorough": 480},
+        "floor": {"quick": 20000, "thorough": 20000},
         "shards": 16,
         "rule": "seeded sparse matrices over i64, Ratio<i64>, FF<3>, FF<5>, Poly<H,i64>: random (1..40/60 rows and columns, 1-5 entries per row, mix of +-1, other units, non-units) and the 'starved' family "
                 "(one light dense row that becomes the only sequential pivot and occupies every column; all other rows start with a heavy non-candidate and share a narrow span of +-1 columns, so they all reach the parallel phase with colliding candidates) "
@@ -92,8 +92,8 @@ PROPS = {
         "level_note": "Schedules are sampled, not enumerated; the hook callback adds delays only at the library's own schedule points. Trusts the own DFS acyclicity check.",
     },
     "C12": {
-        "budget_s": {"quick": 120, "thorough": 1800},
-        "floor": {"quick": 20000, "thorough": 400000},
+        "budget_s": {"quick": 120, "thorough": 480},
+        "floor": {"quick": 20000, "thorough": 20000},
         "rule": "triangular kernels: upper/lower A (n <= 24 quick / 40) with unit diagonal entries taken from the ring's units (+-1; +-1,+-i over Z[i]; 2, 1/2, -3/7.. over Q; any non-zero over F_p), random off-diagonal entries, "
                 "explicit stored zeros injected through From<CscMatrix>, right-hand sides with 0..300 columns (so one worker solves many columns in a row) -> A X = Y (and X = own substitution), X A = Y, A A^-1 = I, vector solve; "
                 "Schur: M with a leading r x r such block, r from 0 to min(m,n) -> S = D - C A^-1 B (own substitution), F_tgt M B_src = S, F B = I on both sides, F_tgt M = S F_src, M B_src = B_tgt S; "
@@ -109,8 +109,8 @@ PROPS = {
         "level_note": "Trusts oracle substitution and dense products; schedules sampled, not enumerated.",
     },
     "C14": {
-        "budget_s": {"quick": 60, "thorough": 900},
-        "floor": {"quick": 50000, "thorough": 1000000},
+        "budget_s": {"quick": 60, "thorough": 480},
+        "floor": {"quick": 50000, "thorough": 50000},
         "rule": "per scalar type (i32,i64,i128,BigInt, Ratio<i64|i128|BigInt>, FF2, FF<2,3,5,7,32749,46337,65537,2147483647>, QuadInt<i64|i128|BigInt,D> for D in -1,-3,2,-2,5,-7): "
                 "seeded histories of 5-30 steps on a pool of 4 values (boundary-biased magnitudes: 0,+-1, 2^31, 2^53, 2^63, 2^127 +-2, 64..2000-bit), each step one of +,-,*,neg in one of the "
                 "six operator forms (val/ref/assign), compared after every step with a BigInt-based model incl. canonical representation, ==, is_zero/is_one and Ord; "
@@ -124,8 +124,8 @@ PROPS = {
         "level_note": "Trusts num-bigint as the model's base (itself residue-checked) and the field-by-field conversion lib->model; sampled operands, not exhaustive.",
     },
     "C15": {
-        "budget_s": {"quick": 90, "thorough": 1200},
-        "floor": {"quick": 20000, "thorough": 400000},
+        "budget_s": {"quick": 90, "thorough": 480},
+        "floor": {"quick": 20000, "thorough": 20000},
         "rule": "per Euclidean type (i32,i64,i128,BigInt, Gauss/Eisenstein integers over i64,i128,BigInt, Ratio<i64|BigInt>, FF<2,3,7,46337>, FF2, Poly<x,Q|F2|F3|F7>, HPoly<H,Q|F3|F2>): "
                 "seeded operand pairs (boundary-biased magnitudes 0..2^2000; related pairs: multiples, associates, common factors, equal, zero) -> division identity and Euclidean size of the remainder "
                 "(all operator forms), divides, gcd (divides both, greatest w.r.t. own Euclid, symmetric, normalised), gcdx (Bezout identity, d = gcd), lcm*gcd ~ a*b, is_unit <=> inv, a*inv = 1, "
@@ -140,8 +140,8 @@ PROPS = {
         "level_note": "Trusts the oracle's own Euclid / norms / unit lists; sampled operands, not exhaustive.",
     },
     "C17": {
-        "budget_s": {"quick": 40, "thorough": 600},
-        "floor": {"quick": 500, "thorough": 5000},
+        "budget_s": {"quick": 40, "thorough": 480},
+        "floor": {"quick": 500, "thorough": 500},
         "rule": "boundary sweep of every length 0..64 plus seeded random histories of 10-200 operations over a pool of three "
                 "sequences (new, new_rev, zeros, ones, from_iter, parse, push, append, insert, remove, set, sub, is_sub, index, "
                 "cmp, generate, edit, from-array; lengths biased to 0,1,31..33,62..64, arguments at and one past each bound) "
@@ -152,8 +152,8 @@ PROPS = {
         "level_note": "Trusts the Vec<bool> model and that argument generators reach the boundaries (evidence reports max length reached and counts of rejected invalid operations). Sampled, not exhaustive.",
     },
     "C18": {
-        "budget_s": {"quick": 120, "thorough": 1500},
-        "floor": {"quick": 5000, "thorough": 100000},
+        "budget_s": {"quick": 120, "thorough": 720},
+        "floor": {"quick": 5000, "thorough": 5000},
         "rule": "all 2214 PD codes and 801 braid words shipped with yui-link (as inputs), plus seeded derived diagrams: R1 kinks of the four kinds (repeated edges), a ring laid over an edge (over-only component), split unions, connected sums, "
                 "switched crossings (mixed X/Xm data), mirror, global orientation reversal, edge relabelling, crossing permutation, and random braid words on 2..8 strands of length <= 20; "
                 "checks against own PD tools: components = strand orbits (partition), crossing signs = one of the orientations compatible with the under-strand rule (2^k choices for k over-only components), "
@@ -167,8 +167,8 @@ PROPS = {
     },
     "C01": {
         "need_old": True,
-        "budget_s": {"quick": 150, "thorough": 2400},
-        "floor": {"quick": 3000, "thorough": 60000},
+        "budget_s": {"quick": 150, "thorough": 720},
+        "floor": {"quick": 3000, "thorough": 3000},
         "rule": "diagrams: empty link, kinked unknots, table PD codes with <= 8 (quick) / 10 crossings incl. multi-component links, optionally transformed (R1 kinks, split union, connected sum, switched crossings = mixed X/Xm data, mirror, "
                 "orientation reversal, relabelling, crossing permutation) x rings i64, BigInt, Ratio<i64>, FF2, FF<2>, FF<3> x (h,t) in {(0,0),(1,0),(0,1),(2,0),(1,1),(2,3),(-1,2),(3,-2)} (reduced mod p for fields) x reduced (t=0) / unreduced "
                 "x build configuration (default; explicit crossing absorption orders fed one crossing at a time through the public builder; auto_deloop/auto_elim on/off) x rayon pools of 1,2,4,16 threads; "
@@ -186,8 +186,8 @@ PROPS = {
         "level_note": "Trusts the own cube construction (self-tested against published data) and SNF; bounded by diagram size.",
     },
     "C04": {
-        "budget_s": {"quick": 120, "thorough": 1800},
-        "floor": {"quick": 1500, "thorough": 50000},
+        "budget_s": {"quick": 120, "thorough": 720},
+        "floor": {"quick": 1500, "thorough": 1500},
         "rule": "table diagrams (<= 11 crossings) with 0-2 random transformations (R1 kinks, ring laid over an edge, split union, connected sum, switched crossing, mirror) and closures of random braid words on 2..5 strands; "
                 "checks: jones_polynomial = own Kauffman state sum (BigInt; one of the 2^k orientation choices for over-only components), Jones(mirror)(q) = Jones(q^-1), "
                 "sum (-1)^i q^j rank Kh^(i,j) (ranks from KhComplexBigraded over i64, <= 10 crossings) = jones_polynomial, invariance under PD-level moves (relabel, permute, reverse, R1) and braid-level moves "
@@ -199,8 +199,8 @@ PROPS = {
         "level_note": "Trusts the oracle state sum (self-tested against the published Jones polynomial of 3_1 and chi of the oracle cube); bounded by 13 crossings.",
     },
     "C02": {
-        "budget_s": {"quick": 150, "thorough": 2400},
-        "floor": {"quick": 800, "thorough": 30000},
+        "budget_s": {"quick": 150, "thorough": 720},
+        "floor": {"quick": 800, "thorough": 800},
         "rule": "pairs (D, M.D): closures of random / table braid words (2..5 strands, <= 13 crossings quick / 18) under 1-8 braid-level moves (sigma sigma^-1 insertion/cancellation, braid relation incl. mixed signs, far commutation, "
                 "conjugation, Markov stabilisation/destabilisation of either sign) and table PD codes (<= 10 crossings) under 1-6 PD-level moves (edge relabelling, crossing permutation, global orientation reversal [a,b,c,d]->[c,d,a,b], "
                 "Reidemeister I kinks of the four kinds); rings i64, BigInt, Ratio<i64>, FF2, FF<3>; reduced for knots; pools of 1,4,16 threads; checks: bigraded table (homology of the bigraded pieces) of D = table of M.D; "
@@ -212,8 +212,8 @@ PROPS = {
         "level_note": "A generator bug that produced non-isotopic diagrams with equal bracket polynomial could cause a false alarm; none was observed on the unchanged tree over all seeds tried.",
     },
     "C03": {
-        "budget_s": {"quick": 150, "thorough": 2400},
-        "floor": {"quick": 300, "thorough": 5000},
+        "budget_s": {"quick": 150, "thorough": 720},
+        "floor": {"quick": 300, "thorough": 300},
         "shards": 16,
         "rule": "links: torus links T(2,5)..T(6,7) (odd and composite torsion; T(6,7) = 35 crossings), every 5th table diagram with <= 10 crossings (quick) / all <= 11, closures of random braid words (<= 11/14 letters, optionally one switched crossing); "
                 "for each link 14 real computations: bigraded tables by both library routes (homology of bigraded pieces / total homology split by generator q-degree) over i64, BigInt, i128, Ratio<i64>, FF2, FF<2>, FF<3>, reduced over i64 and FF2; "
@@ -225,8 +225,8 @@ PROPS = {
         "level_note": "Relations are necessary, not sufficient; combined with C01/C02 for absolute correctness.",
     },
     "C05": {
-        "budget_s": {"quick": 150, "thorough": 2400},
-        "floor": {"quick": 1500, "thorough": 40000},
+        "budget_s": {"quick": 150, "thorough": 720},
+        "floor": {"quick": 1500, "thorough": 1500},
         "rule": "diagrams as in C01 (<= 8 crossings quick / 10) x parameter rings K[H] (h=H,t=0), K[T] (h=0,t=T), K[H,T] for K in i64, Ratio<i64>, FF<2>, FF<3> x reduced (t=0) / unreduced x pools of 1,4,16 threads; "
                 "KhComplex::<R>::new(..).d_matrix(i) and the generator lists are exported term by term; checks with own polynomial arithmetic: matrix/generator sizes consistent, every generator of C_i has h-degree i, "
                 "every monomial c H^a T^b from x to y satisfies qdeg(y) - 2a - 4b = qdeg(x), d_{i+1} d_i = 0, and for 2 (quick) / 4 evaluation points (h0,t0) from {0,+-1,2,3}x{0,+-1,2,-2,3} the evaluated complex has the same homology "
@@ -237,8 +237,8 @@ PROPS = {
         "level_note": "Trusts the term-by-term export (iter over stored terms) and own arithmetic.",
     },
     "C06": {
-        "budget_s": {"quick": 150, "thorough": 2400},
-        "floor": {"quick": 1500, "thorough": 40000},
+        "budget_s": {"quick": 150, "thorough": 720},
+        "floor": {"quick": 1500, "thorough": 1500},
         "rule": "knot diagrams: table knots (3..9 crossings quick / 10), closures of random braid words that are knots, kinked unknots; (a) KhComplex::<i64>::new(D,h,0,red) for h in {0,+-1,2,3}: number of canonical cycles (2 / 1 reduced), "
                 "every generator in h-degree 0, d z = 0, and for h != 0 the class is non-torsion (rank[d_-1 | z] = rank d_-1 + 1 by own elimination modulo 2^31-1 on the exported matrices); "
                 "(b) links (table, split unions, switched crossings): homology with (h,t) = (1,0) over Z free of total rank 2^{#components}, with (0,1) over Q of total rank 2^{#components} (components counted by the oracle); "
@@ -250,8 +250,8 @@ PROPS = {
         "level_note": "Non-torsion is decided modulo a 31-bit prime (one-sided error negligible); ss relations are necessary conditions.",
     },
     "C19": {
-        "budget_s": {"quick": 150, "thorough": 2400},
-        "floor": {"quick": 300, "thorough": 10000},
+        "budget_s": {"quick": 150, "thorough": 720},
+        "floor": {"quick": 300, "thorough": 300},
         "rule": "the 23 built-in strongly invertible PD codes, their mirrors, and the same codes with the crossings listed in random orders (sinv_knot_from_code); FF2 with (h,t) in {(0,0),(1,0),(0,1),(1,1)} (reduced only for t=0) "
                 "and F2[H] with (H,0); checks: d^2 = 0 (check_d_all), KhI ranks per degree = homology of the explicitly built Cone(1+tau) over F2 (own cube, tau induced on states and circle labels by e -> (n+1-e) mod n + 1; codes with <= 7 (quick) / 8 crossings), "
                 "symmetric construction without the involutive part = KhHomology::new of the underlying knot, over F2[H]: rank_i = dim Cone at H=1, rank_i + tors_i + tors_{i+1} = dim Cone at H=0, "
@@ -262,8 +262,8 @@ PROPS = {
         "level_note": "Trusts the own cube and the induced involution (the oracle self-checks that tau maps circles to circles and preserves degree).",
     },
     "C20": {
-        "budget_s": {"quick": 150, "thorough": 2400},
-        "floor": {"quick": 500, "thorough": 10000},
+        "budget_s": {"quick": 150, "thorough": 720},
+        "floor": {"quick": 500, "thorough": 500},
         "need_ykh": True,
         "rule": "seeded samples of the product {kh, ckh} x -t {Z,Q,F2,F3,(absent)} x -c {absent, '', 0, 1, 2, -3, '0,1', '1,1', '2,0', H, '0,T', 'H,T', T, 'H,0', foo, '1,', '2,3,4', '0,0,junk', 'H,T,7', ',1'} x {-m} x {-r} x "
                 "LINK {3_1, 4_1, 5_2, 6_2, 7_7, L2a1, L6n1, PD JSON of knots / Hopf / L6n1, [], [[0,0,1,1]]; and the error inputs foo, %%%, [[1,2,3]], [[1,2,3,4]] (structurally invalid), 3_1x, unbalanced JSON}; "
@@ -281,8 +281,8 @@ PROPS = {
         "level_note": "Trusts the in-process library as the model for supported combinations (by the statement) and the own parser.",
     },
     "C13": {
-        "budget_s": {"quick": 120, "thorough": 1500},
-        "floor": {"quick": 20000, "thorough": 500000},
+        "budget_s": {"quick": 120, "thorough": 480},
+        "floor": {"quick": 20000, "thorough": 20000},
         "rule": "random programs of 5-40 operations over a pool of sparse matrices (i64, Ratio<i64>, FF<3>; shapes 0..7 incl. zero dimensions; explicit stored zeros injected through From<CscMatrix> and produced by a - a): "
                 "from_entries with duplicate triplets and zeros, from_dense_data, from_col_vecs, +, -, * in three operator forms, neg, transpose, permute / permute_rows / permute_cols, submat(_rows/_cols), "
                 "divide4 at arbitrary (non-square) split points with every block checked + combine_blocks, concat, stack, extend_cols, round trips through the dense container with swap / add_row_to / add_col_to, "
@@ -295,8 +295,8 @@ PROPS = {
         "level_note": "Trusts the dense model and the permutation convention (entry (i,j) moves to (p[i], q[j])), which is the library's documented one.",
     },
     "C16": {
-        "budget_s": {"quick": 120, "thorough": 1500},
-        "floor": {"quick": 20000, "thorough": 500000},
+        "budget_s": {"quick": 120, "thorough": 480},
+        "floor": {"quick": 20000, "thorough": 20000},
         "rule": "PolyBase over Var / Var2 / Var3 / MultiVar with usize and isize (Laurent) exponents and coefficients i64, Ratio<i64>, FF<3>, FF<5>, GaussInt<i64>: seeded histories of 5-30 operations on a pool "
                 "(construction from term lists with duplicates and explicit zero terms; +, -, * in four operator forms incl. the *= special cases rhs one / constant / zero and lhs constant; neg; scalar *=; cancellations p+q-q, (p-p)q, (p+q)(p-q), "
                 "products whose terms vanish in F_p); after every step: term set = model (BTreeMap<exponent vector, coeff> updated by definition), no stored zero coefficient, no stored zero exponent, nterms, is_zero, is_one, "
